@@ -7,6 +7,7 @@ CONSTANTS
   Grid = "full"
   Preamble = FALSE
   Header = "free"
+  OneFree = FALSE
   NonFinite = FALSE
 INIT Init
 NEXT Next
